@@ -53,6 +53,7 @@ FIXED = [
  ("C01", "C01-glue-eof-at-buffer-multiple", "a Newick text without final newline whose length is a multiple", "a one-line Newick text without final newline whose byte length is a multiple of the 4096-byte bufio buffer was not delivered by utils.ReadMultiTrees: ReadUntilSemiColon returned io.EOF together with the complete text, e.g. \"(P\" + 4090 x \"p\" + \",B);\" (4096 bytes; 4095 and 4097 bytes were read fine)"),
  ("C03", "C03-nni-undo-after-reroot", "NNI Undo left the central branch wrongly oriented", "NNI Apply, then Reroot into the clade that Apply moved from n2 to n1, then Undo returned nil and left an ill-oriented tree: ((a,(b1,b2)B)X,(c,d)Y,e)R; proposal 0, Reroot(B), Undo: Edges() listed 4 branches for 10 nodes, CheckTree() false (the central branch was only inverted when the root lay behind n1_2)"),
  ("C02", "C02-text-after-closed-tree", "the Newick parser accepted text after an unmatched closing parenthesis", "\"(a))(b;\" was read without error as the tree \"b;\" (also inside a Nexus TREE command) with node ids continuing those of the abandoned first tree; NodeRootDistance() and LTT() on the delivered tree panicked with index out of range"),
+ ("C02", "C02-reopened-after-comma", "the Newick parser still started a second tree at level 0", "\"(a,b),(c,d);\", \"()(a,b);\" and \"(a,)(b,c);\" were read without error as the last group only, with node ids continuing those of the abandoned first tree; NodeRootDistance() and LTT() on the delivered tree panicked (second path of C02-text-after-closed-tree: the root popped by a comma or by closing an empty group)"),
  ("C11", "C11-tbe-per-branch-only-panic", "TBE panicked when per-branch transfer tables were requested", "support.TBE with computeperbranchtaxa=true and computeavgtaxa=false (--per-branches without --moved-taxa) panicked with index out of range, with one thread and with several: the per-taxon accumulator was updated although it is only allocated for the per-taxon table (30-tip reference, 4 bootstrap copies)"),
  ("C13", "C13-phyloxml-firsttree-nil", "PhyloXML FirstTree assigned a shadowed", "PhyloXML FirstTree returned (nil, nil): reading 'the first tree' of a PhyloXML file failed with 'No tree in the input PhyloXML file' although the iterator delivers it"),
 ]
